@@ -61,6 +61,10 @@ def b_len(ip, args, kwargs, node):
     h = ip.lib.get("__len__", {}).get(v.kind)
     if h:
         return h(ip, v)
+    if isinstance(v, VObj):
+        c = ip.find_contract_for_method(v.cls, "__len__")
+        if c is not None:
+            return ip.apply_contract(c, {"self": v}, node)
     raise Unsupported(f"len of {v!r}")
 
 
@@ -572,6 +576,11 @@ def asyncio_create_task(ip, args, kwargs, node):
         else:
             am = ip.argmap_for(None, sc, co.fn.obj, co.args, co.kwargs)
         return ip.apply_contract(sc, am, node)
+    if isinstance(co, VCoro) and isinstance(co.fn, VOpaque) and co.fn.tag:
+        sc = ip.db.lookup("spawn:" + co.fn.tag)
+        if sc is None:
+            raise Unsupported(f"create_task(<{co.fn.tag}>(...)) needs a sidecar contract 'spawn:{co.fn.tag}'")
+        return ip.apply_contract(sc, {"fn": co.fn}, node)
     raise Unsupported(f"create_task of {co!r}")
 
 
